@@ -354,7 +354,7 @@ def helpers(tier):
     obs.append(mk('c11_derEnc_longL', 'DER', bmax, inst_b, 'two- and three-octet L: tag in {04, 1F1F} x len in %s x der = val + d, d in %s, contents symbolic' % (big, '[-(len+12), -(len-2)] + [-9, 9] + [len-6, len+8]' if q else 'EVERY value of [-(len+12), len+8]'),
                   ['src/core/der.c', 'src/core/mem.c', 'src/core/util.c', 'src/core/u32.c'], ['derEnc', 'derTEnc', 'derLEnc']))
     tl = [1, 2, 3, 9] if q else list(range(1, 18))
-    tl = [1, 2, 3] if q else [1, 2, 3, 4, 8]
+    tl = [1, 2, 3]   # larger lengths do not fit the fixed reference area of the harness (its assumption made the thorough instances vacuous)
     # the encoder strips leading zero octets: the copy length becomes symbolic -> one placement per query, small len
     inst = [('u_%d_%s' % (n, sg(d)), '0x02, %d, %d, %d, %d' % (n, 8 * n, d, d)) for n in tl for d in ([-(n + 4), -2, -1, 0, 1, 2, n + 3] if q else range(-(n + 4), n + 4))]
     obs.append(mk('c11_derTUINTEnc', 'DERT', max(tl), inst, 'tag 02 x EVERY len in %s x der = val + d, d in %s, contents symbolic (incl. leading zero octets / high bit set)' % (tl, '{-(len+4), -2, -1, 0, 1, 2, len+3}' if q else 'EVERY value of [-(len+4), len+3]'),
